@@ -81,3 +81,58 @@ def lcConstant (lc : LC.LinComb F) : F :=
 
 end Marlin
 end PCV
+
+namespace PCV
+namespace Marlin
+variable {F : Type} [Add F] [Mul F] [Sub F] [Neg F] [Zero F] [One F] [DecidableEq F]
+
+/-- combine every linear combination (`lc_polynomials`, `lc_states`, `lc_commitments`) -/
+def combineAll (trips : List (Trip' F)) : List (LC.LinComb F) → Except Err (List (Trip' F))
+  | [] => .ok []
+  | lc :: lcs =>
+    match combineLC trips lc with
+    | .error e => .error e
+    | .ok t =>
+      match combineAll trips lcs with
+      | .error e => .error e
+      | .ok ts => .ok (t :: ts)
+
+/-- `Marlin::open_combinations`: combine, then `batch_open` over the combinations -/
+def openCombinations (ck : CK F) (polys : List (LPoly F)) (sts : List (Rand F))
+    (comms : List (LComm F)) (lcs : List (LC.LinComb F)) (qs : List (Query F)) (ξs : List F) :
+    Except Err (List (KZG.Proof F) × List F) :=
+  match combineAll (polys.zip (sts.zip comms)) lcs with
+  | .error e => .error e
+  | .ok ts => batchOpen ck (ts.map (·.1)) (ts.map (·.2.1)) qs ξs
+
+/-- verifier side of one combination: only commitments are available; the degree-bound policy reads
+the commitment's label -/
+def combineLCComm (comms : List (LComm F)) (lc : LC.LinComb F) : Except Err (LComm F) :=
+  match combineLC (comms.map fun c => ((⟨c.label, [], c.bound, none⟩ : LPoly F), (⟨[], none⟩ : Rand F), c)) lc with
+  | .error e => .error e
+  | .ok t => .ok t.2.2
+
+def combineAllComm (comms : List (LComm F)) : List (LC.LinComb F) → Except Err (List (LComm F))
+  | [] => .ok []
+  | lc :: lcs =>
+    match combineLCComm comms lc with
+    | .error e => .error e
+    | .ok t =>
+      match combineAllComm comms lcs with
+      | .error e => .error e
+      | .ok ts => .ok (t :: ts)
+
+/-- subtract the constants of each combination from every claimed value carrying its label -/
+def adjustEvals (lcs : List (LC.LinComb F)) (evals : List ((Label × F) × F)) : List ((Label × F) × F) :=
+  lcs.foldl (fun evs lc => evs.map fun e => if e.1.1 = lc.label then (e.1, e.2 - lcConstant lc) else e) evals
+
+/-- `Marlin::check_combinations` -/
+def checkCombinations (vk : VK F) (comms : List (LComm F)) (lcs : List (LC.LinComb F))
+    (qs : List (Query F)) (evals : List ((Label × F) × F)) (πs : List (KZG.Proof F))
+    (ξs rs : List F) : Except Err Bool :=
+  match combineAllComm comms lcs with
+  | .error e => .error e
+  | .ok lcComms => batchCheck vk lcComms qs (adjustEvals lcs evals) πs ξs rs
+
+end Marlin
+end PCV
